@@ -26,6 +26,9 @@ var gridC05 = []string{"0", "1", "-1", "10", "9.99", "10.01", "0.1", "0.10", "0.
 func spellings(t string) []string {
 	r := ratStr(t)
 	out := []string{t}
+	if r.Sign() == 0 {
+		out = append(out, "0.0", "0.00", "0e0", "0e5", "-0", "0.000")
+	}
 	if r.IsInt() && r.Num().IsInt64() && r.Num().Int64() != 0 && abs64(r.Num().Int64()) < 1000 {
 		n := r.Num().Int64()
 		out = append(out, fmt.Sprintf("%d.0", n), fmt.Sprintf("%d.00", n), fmt.Sprintf("%de0", n))
@@ -40,6 +43,10 @@ func storages(t string) []*D {
 	r := ratStr(t)
 	f, _ := new(big.Float).SetRat(r).Float64()
 	out := []*D{h.FloatD(f)}
+	if r.Sign() == 0 {
+		// zero stored with a positive exponent (decimal.Zero itself is 0e1) and with deep scales
+		out = append(out, &D{Tag: "d", Coef: big.NewInt(0), Exp: 1}, &D{Tag: "d", Coef: big.NewInt(0), Exp: 7}, &D{Tag: "d", Coef: big.NewInt(0), Exp: -20})
+	}
 	// decimal at two scales
 	num := new(big.Rat).Set(r)
 	for _, e := range []int64{-3, -12} {
@@ -180,7 +187,8 @@ func c05(c *Ctx) {
 	// strings that are not numerals, booleans, cross-kind
 	// ... including near-numerals: a numeral with a blank before or after it, with a separator, a second
 	// sign, a second point, a dangling exponent — none of them is a number
-	words := []string{"", "a", "A", "ab", "a b", "é", "true", "x1", " 1", "1 ", "1\t", "1 0", "1e", "1,000", "--1", "1.2.3", " 2.5 "}
+	words := []string{"", "a", "A", "ab", "a b", "é", "true", "x1", " 1", "1 ", "1\t", "1 0", "1e", "1,000", "--1", "1.2.3", " 2.5 ",
+		"\u00e9", "e\u0301", "\u212b", "\u00c5", "A\u030a"} // canonically equivalent spellings are different strings
 	for _, s := range words {
 		for _, t := range words {
 			doc := h.Obj("x", h.Str(s), "y", h.Str(t))
